@@ -16,8 +16,9 @@ CONSTANTS MaxParams
 Shapes == {<<1>>, <<2>>, <<3>>, <<1, 2>>, <<2, 2>>, <<2, 1, 2>>}
 Rates == {Dy(0, 0), Dy(1, 0), Dy(1, 1), Dy(-2, 0), Dy(3, 2)}
 
+IdAdj(n, t) == t
 INSTANCE AutodiffAbs WITH SAdd <- DAdd, SMul <- DMul, SNeg <- DNeg, SDiv <- DDiv, SFn <- DFn,
-                          SPow <- DPow, SDPow <- DDPow, SZero <- DZero, SOne <- DOne
+                          SPow <- DPow, SDPow <- DDPow, SZero <- DZero, SOne <- DOne, AdjCanon <- IdAdj
 
 VARIABLE c      \* [ds: Seq(dims), has: Seq(BOOLEAN), has2: Seq(BOOLEAN), lr]
 Cases == UNION { { [ds |-> ds, has |-> has, has2 |-> has2, lr |-> lr] :
